@@ -67,7 +67,7 @@ def resVal : Res Val → Val
 def cacheReplies (f : Call → Res Val) : CacheSt → List Call → List Val
   | _, [] => []
   | st, c :: cs =>
-    let (st1, r) := cacheCall f st c
+    let (st1, r) := cacheCallH Call.hasArr f st c
     .tuple [resVal r, .cell (.int st1.evals.length)] :: cacheReplies f st1 cs
 
 /-- `(deco <op> <args>)` -/
